@@ -871,5 +871,5 @@ class AWaitUnit(WaitUnit):
 
 UNITS_ENTRY = [CallUnit, ACallUnit, StreamUnit, AStreamUnit]
 
-UNITS_C06 = [EnqueueUnit, AEnqueueUnit, BacklogUnit, GatherUnit, NotifyUnit, C06Lemma]
+UNITS_C06 = [EnqueueUnit, AEnqueueUnit, BacklogUnit, GatherUnit, AGatherUnit, NotifyUnit, C06Lemma]
 UNITS_C07 = [GatherUnit, WaitUnit, AGatherUnit, AWaitUnit]
